@@ -18,6 +18,12 @@ pub struct What {
     pub emits: bool,
     pub primary: bool,
     pub exact_span: bool,
+    /// do not judge `found` (C06(a) does that)
+    pub no_found: bool,
+    /// do not compare expected sets / contexts of syntax errors
+    pub no_expected: bool,
+    /// recovered errors: presence only
+    pub lenient_rec: bool,
 }
 
 /// Compare the model's outcome with a real run.  `None` = agree.
@@ -25,7 +31,7 @@ pub fn judge<'s, I: Kind<'s>>(buf: &Buf, m: &Outcome, r: &RunOut, w: What) -> Op
 where
     I::Span: Clone + 's,
 {
-    let rules = ErrRules { exact_span: w.exact_span, ..ErrRules::LENIENT };
+    let rules = ErrRules { exact_span: w.exact_span, found: !w.no_found, expected: !w.no_expected, contexts: !w.no_expected, lenient_rec: w.lenient_rec || m.stats.not_failures > 0 };
     if m.out.is_some() != r.has_output {
         return Some(format!(
             "acceptance: model {} but parser {} (errors: {:?})",
@@ -112,4 +118,94 @@ pub fn settle(acc: &mut Acc, prop: &str, g: &G, input: &[char], kind: &str, m: &
 
 pub fn model_of(g: &G, input: &[char], wrap: bool) -> Outcome {
     model::run_opts(g, input, St::fresh(0), MODEL_BUDGET, wrap)
+}
+
+/// Declarative description of a reference-model driver step (shared by C05/C06/C07/C08/C15/C17/C18).
+pub struct Spec {
+    pub prop: &'static str,
+    pub what: What,
+    /// is this case non-trivial for the property?
+    pub nontrivial: fn(&Outcome) -> bool,
+    /// does the case pass through a lenient spot (disagreement => `ambiguous`, not a violation)?
+    pub amb: fn(&Outcome) -> bool,
+    /// property-specific counters
+    pub counters: fn(&mut Acc, &Outcome, &RunOut),
+    /// classify a disagreement: `Some(signature)` attaches a known-finding signature to the violation
+    pub signature: fn(&G, &Outcome, &str) -> Option<String>,
+    /// also run check() and compare acceptance/errors/state/trace with the model
+    pub also_check: bool,
+}
+
+pub fn no_sig(_: &G, _: &Outcome, _: &str) -> Option<String> {
+    None
+}
+pub fn no_counters(_: &mut Acc, _: &Outcome, _: &RunOut) {}
+
+pub fn note_nontrivial(acc: &mut Acc, enumerated: bool, key: impl FnOnce() -> String) {
+    if enumerated {
+        acc.nontrivial_enum += 1;
+    } else {
+        acc.nontrivial_rand.insert(crate::rng::hash64(key().as_bytes()));
+    }
+}
+
+/// Run one (grammar, input) case on kind `I` with error type `ER` against the model.
+/// Returns the model outcome and the real run when both completed.
+pub fn model_case<'s, I: Kind<'s>, ER: ErrK<'s, I>>(acc: &mut Acc, spec: &Spec, g: &G, p: &BP<'s, I, ER>, buf: &'s Buf, enumerated: bool) -> Option<(Outcome, RunOut)>
+where
+    I::Span: Clone + 's,
+{
+    let m = model_of(g, &buf.chars, true);
+    acc.evaluations += 1;
+    if m.pathological {
+        acc.pathological += 1;
+        return None;
+    }
+    let r = guarded(|| run_parse(p, buf, 0, STEP_BUDGET));
+    let r = settle(acc, spec.prop, g, &buf.chars, I::NAME, &m, r)?;
+    if (spec.nontrivial)(&m) {
+        note_nontrivial(acc, enumerated, || format!("{}|{}|{}|{}", g.show(), buf.text, I::NAME, ER::NAME));
+    }
+    (spec.counters)(acc, &m, &r);
+    let nt = (spec.nontrivial)(&m);
+    if (nt && acc.samples.len() < 2 && buf.n() >= 2 && acc.evaluations % 53 == 0) || (acc.samples.len() < 3 && acc.evaluations % 40_000 == 1) {
+        acc.samples.push(json!({
+            "grammar": g.show(), "input": buf.text, "kind": I::NAME, "error_type": ER::NAME, "non_trivial": nt,
+            "output": r.out.as_ref().map(|v| v.strip().show()),
+            "reported_errors": r.errs.iter().map(|e| e.show()).collect::<Vec<_>>(),
+            "model_emissions": m.em.iter().map(|e| e.show()).collect::<Vec<_>>(),
+            "model_primary": m.pend.as_ref().map(|e| e.show()),
+        }));
+    }
+    let mut what = spec.what;
+    if !ER::RICH {
+        // user errors / expectations are not representable: positions only
+        what.emits = what.emits && false;
+    }
+    let report = |acc: &mut Acc, d: String, mode: &str| {
+        if (spec.amb)(&m) {
+            acc.ambiguous += 1;
+        } else {
+            let sig = (spec.signature)(g, &m, &d);
+            let mut extra = json!({"kind": I::NAME, "error_type": ER::NAME, "mode": mode});
+            if let Some(s) = sig {
+                extra["signature"] = json!(s);
+            }
+            acc.viol(Viol::case(format!("{}: {}", spec.prop, d), g, &buf.chars, extra));
+        }
+    };
+    if let Some(d) = judge::<I>(buf, &m, &r, what) {
+        report(acc, d, "parse");
+    }
+    if spec.also_check {
+        let rc = guarded(|| run_check(p, buf, 0, STEP_BUDGET));
+        if let Some(rc) = settle(acc, spec.prop, g, &buf.chars, I::NAME, &m, rc) {
+            let mut w2 = what;
+            w2.value = false;
+            if let Some(d) = judge::<I>(buf, &m, &rc, w2) {
+                report(acc, format!("(check mode) {}", d), "check");
+            }
+        }
+    }
+    Some((m, r))
 }
